@@ -20,6 +20,8 @@ N7  t = <expr>; S(t)             ->  S(<expr>)               (t used once, in th
                                       an effect evaluated before it)
 N10 helper(args) as a statement, helper a short loop-free statement sequence of this module that returns nothing
                                  ->  its statements with the arguments substituted and its locals renamed
+N11 NAME (module-level, bound once to an int / str literal, not a name the rules know) -> the literal
+N12 str('lit') -> 'lit'; int(<int expression>) -> the expression; bool(<comparison>) and bool(x) in a condition -> x
 N8  list(reversed(x)) -> x[::-1];  sorted(d.keys()) / for k in d.keys() / k in d.keys()  ->  without .keys()
 """
 import ast
@@ -133,10 +135,84 @@ def _stmt_lists(node):
 
 # --------------------------------------------------------------------------- expression level (N8)
 
+def _int_typed(e, int_names):
+    """e is certainly an int: int literals, len(...), loop counters, and + - * // over those"""
+    if isinstance(e, ast.Constant):
+        return isinstance(e.value, int) and not isinstance(e.value, bool)
+    if isinstance(e, ast.Name):
+        return e.id in int_names
+    if isinstance(e, ast.Call) and isinstance(e.func, ast.Name) and e.func.id == 'len':
+        return True
+    if isinstance(e, ast.BinOp) and isinstance(e.op, (ast.Add, ast.Sub, ast.Mult, ast.FloorDiv)):
+        return _int_typed(e.left, int_names) and _int_typed(e.right, int_names)
+    if isinstance(e, ast.UnaryOp) and isinstance(e.op, ast.USub):
+        return _int_typed(e.operand, int_names)
+    return False
+
+
 class _ExprCanon(ast.NodeTransformer):
+    int_names = frozenset()
+
+    def visit_FunctionDef(self, n):
+        # names that can only hold ints: indices of enumerate(...) and variables of range(...) loops, if bound nowhere else
+        cand = {}
+        stores = {}
+        for x in _own_walk(n):
+            if isinstance(x, ast.Name) and isinstance(x.ctx, ast.Store):
+                stores[x.id] = stores.get(x.id, 0) + 1
+            if isinstance(x, (ast.For, ast.comprehension)) and isinstance(x.iter, ast.Call) and isinstance(x.iter.func, ast.Name):
+                if x.iter.func.id == 'enumerate' and isinstance(x.target, ast.Tuple) and x.target.elts \
+                        and isinstance(x.target.elts[0], ast.Name):
+                    cand[x.target.elts[0].id] = cand.get(x.target.elts[0].id, 0) + 1
+                elif x.iter.func.id == 'range' and isinstance(x.target, ast.Name):
+                    cand[x.target.id] = cand.get(x.target.id, 0) + 1
+        old = self.int_names
+        self.int_names = frozenset(k for k, v in cand.items() if stores.get(k, 0) == v)
+        self.generic_visit(n)
+        self.int_names = old
+        return n
+
+    def _strip_bool(self, e):
+        while isinstance(e, ast.Call) and isinstance(e.func, ast.Name) and e.func.id == 'bool' and len(e.args) == 1 \
+                and not e.keywords:
+            e = e.args[0]
+        return e
+
+    def visit_If(self, n):
+        self.generic_visit(n)
+        n.test = self._strip_bool(n.test)
+        return n
+
+    def visit_While(self, n):
+        self.generic_visit(n)
+        n.test = self._strip_bool(n.test)
+        return n
+
+    def visit_IfExp(self, n):
+        self.generic_visit(n)
+        n.test = self._strip_bool(n.test)
+        return n
+
+    def visit_UnaryOp(self, n):
+        self.generic_visit(n)
+        if isinstance(n.op, ast.Not):
+            n.operand = self._strip_bool(n.operand)
+        return n
+
     def visit_Call(self, n):
         self.generic_visit(n)
         f = n.func
+        # N12: conversions that cannot change the value
+        if isinstance(f, ast.Name) and len(n.args) == 1 and not n.keywords:
+            a = n.args[0]
+            if f.id == 'str' and isinstance(a, ast.Constant) and isinstance(a.value, str):
+                return a
+            if f.id == 'int' and _int_typed(a, self.int_names):
+                return a
+            if f.id == 'bool' and isinstance(a, (ast.Compare,)) :
+                return a
+            if f.id == 'bool' and isinstance(a, ast.UnaryOp) and isinstance(a.op, ast.Not):
+                return a
         # list(reversed(x)) -> x[::-1]
         if isinstance(f, ast.Name) and f.id == 'list' and len(n.args) == 1 and not n.keywords:
             a = n.args[0]
@@ -921,3 +997,70 @@ def package_context(mods):
             if isinstance(n, ast.Call) and isinstance(n.func, ast.Name) and n.func.id == 'globals':
                 dynamic.add(mname)
     return {'pure': pure, 'rebound': rebound, 'external': external, 'dynamic': dynamic}
+
+
+# --------------------------------------------------------------------------- N11 named constants
+
+def module_constants(tree):
+    """{NAME: ast.Constant} for module-level names bound exactly once, at module level, to an int or str literal."""
+    counts = {}
+    vals = {}
+    for st in tree.body:
+        if isinstance(st, ast.Assign) and len(st.targets) == 1 and isinstance(st.targets[0], ast.Name):
+            nm = st.targets[0].id
+            counts[nm] = counts.get(nm, 0) + 1
+            if isinstance(st.value, ast.Constant) and isinstance(st.value.value, (int, str)) \
+                    and not isinstance(st.value.value, bool):
+                vals[nm] = st.value
+        elif isinstance(st, (ast.AugAssign, ast.AnnAssign)) and isinstance(st.target, ast.Name):
+            counts[st.target.id] = counts.get(st.target.id, 0) + 2
+    for n in ast.walk(tree):
+        if isinstance(n, (ast.Global,)):
+            for nm in n.names:
+                counts[nm] = counts.get(nm, 0) + 2
+    return dict((k, v) for k, v in vals.items() if counts.get(k) == 1 and k.isupper() or
+                (counts.get(k) == 1 and k.upper() == k and any(c.isalpha() for c in k)))
+
+
+class _Consts(ast.NodeTransformer):
+    """Replace references to named literal constants by the literal (names the rules know are kept)."""
+
+    def __init__(self, own, foreign, aliases, keep):
+        self.own = own              # {NAME: Constant} of this module
+        self.foreign = foreign      # {module: {NAME: Constant}}
+        self.aliases = aliases
+        self.keep = keep
+        self.scopes = []
+        self.count = 0
+
+    def visit_FunctionDef(self, n):
+        self.scopes.append(_locals_of(n))
+        self.generic_visit(n)
+        self.scopes.pop()
+        return n
+
+    def _shadowed(self, name):
+        return any(name in s for s in self.scopes)
+
+    def visit_Name(self, n):
+        if isinstance(n.ctx, ast.Load) and n.id in self.own and n.id not in self.keep and not self._shadowed(n.id) \
+                and self.scopes:
+            self.count += 1
+            return _loc(copy.deepcopy(self.own[n.id]), n)
+        return n
+
+    def visit_Attribute(self, n):
+        if isinstance(n.ctx, ast.Load) and isinstance(n.value, ast.Name) and n.value.id in self.aliases \
+                and not self._shadowed(n.value.id) and self.scopes:
+            m = self.aliases[n.value.id]
+            if n.attr in self.foreign.get(m, {}) and n.attr not in self.keep:
+                self.count += 1
+                return _loc(copy.deepcopy(self.foreign[m][n.attr]), n)
+        self.generic_visit(n)
+        return n
+
+
+def substitute_constants(tree, mname, aliases, all_consts, keep):
+    t = _Consts(all_consts.get(mname, {}), all_consts, aliases, keep)
+    t.visit(tree)
+    return t.count
